@@ -1,32 +1,278 @@
 //! C20 — recursion and aggregation accept exactly the valid inner proofs.
+//!
+//! (a) `VerifierGadget<BlstrsEmulation>` (mock level, outer k = 18): the in-tree test circuit
+//!     re-created from public items; differential against the off-circuit verifier
+//!     (`prepare` + `Accumulator::from_dual_msm` + `collapse`) on honest and on corrupted-but-
+//!     parsing inner proofs / wrong inner public inputs; claimed instances other than the derived
+//!     one must be rejected. Oracle: reference evaluator ∧ MockProver, plus a direct read-back of
+//!     the public-input vector the circuit binds.
+//! (b) `LightAggregator<N>` through `init` / `aggregate_proofs` / `verify`: honest aggregates
+//!     verify; every element of the aggregated proof (boundaries from the logged transcript, so
+//!     the inner-product-argument section is covered element by element) mutated; wrong inner
+//!     instances; invalid inner proofs; truncation; trailing bytes.
+//! (c) `ipa_prove` / `ipa_verify` are private (module `inner_product_argument` is not exported);
+//!     they are exercised through (b) only.
+//!
+//! `--part a|b` restricts the run to one part (development aid); `--replay <file>` re-executes a
+//! recorded witness.
+
+#[path = "c20_parts/aggregator.rs"]
+mod aggregator;
+#[path = "c20_parts/forge.rs"]
+mod forge;
 #[path = "c20_parts/gadget.rs"]
 mod gadget;
 
-use gadget::*;
+use std::time::Instant;
+
+use aggregator as ag;
+use gadget as gd;
 use mzv::common::*;
-use serde_json::json;
+use rand::{seq::SliceRandom, Rng};
+use serde_json::{json, Value as Json};
+
+/// Returns false when the part observed too little to say anything.
+fn part_a(ctx: &Ctx, rep: &mut Report) -> bool {
+    let thorough = ctx.tier == Tier::Thorough;
+    let mut rng = ctx.rng("C20/gadget/plan");
+    let mut erng = ctx.rng("C20/gadget/edits");
+    let t0 = Instant::now();
+
+    // inner circuits
+    let mut specs: Vec<(&str, u32)> = vec![];
+    if thorough {
+        specs.extend([("poseidon", 6), ("poseidon", 8), ("poseidon", 10), ("arith", 9), ("arith", 10)]);
+    } else {
+        specs.push(("poseidon", rng.gen_range(6..=10)));
+        specs.push(("arith", rng.gen_range(9..=10)));
+    }
+    let mut cases = vec![];
+    for (i, (what, k)) in specs.iter().enumerate() {
+        let seed = ctx.seed.wrapping_mul(7919).wrapping_add(i as u64);
+        let c = catch_any(|| match *what {
+            "poseidon" => gd::poseidon_case(*k, seed),
+            _ => gd::arith_case(*k, seed),
+        });
+        match c {
+            Ok(Ok(c)) => cases.push(c),
+            Ok(Err(e)) => rep.inconclusive(&format!("inner case {what}/k{k}: {e}")),
+            Err(p) => rep.inconclusive(&format!("inner case {what}/k{k}: panic {} at {}", p.message, p.location)),
+        }
+    }
+    if cases.is_empty() {
+        rep.inconclusive("no inner case for the verifier gadget");
+        return false;
+    }
+    let setup_s = t0.elapsed().as_secs_f64();
+
+    // plan
+    let mut plan: Vec<gd::RunSpec> = vec![];
+    for (ci, c) in cases.iter().enumerate() {
+        let scalars: Vec<usize> = (0..c.layout.len()).filter(|i| c.layout[*i].kind == 'S').collect();
+        let points: Vec<usize> = (0..c.layout.len()).filter(|i| c.layout[*i].kind == 'P').collect();
+        let mut push = |kind: gd::WitnessKind, all: bool| {
+            plan.push(gd::RunSpec {
+                inner: ci,
+                kind,
+                edit_positions: if all { gd::EditPlan::All } else { gd::EditPlan::Sample(if thorough { 4 } else { 6 }, erng.gen()) },
+                full_first_claim: thorough,
+            })
+        };
+        push(gd::WitnessKind::Honest, thorough);
+        let (n_s, n_p) = if thorough { (8, 3) } else { (1, 0) };
+        let mut ss = scalars.clone();
+        ss.shuffle(&mut rng);
+        // the last scalar read (an evaluation, absorbed just before the final challenges) is
+        // always among the corrupted ones in the thorough tier
+        let mut chosen: Vec<usize> = ss.into_iter().take(n_s).collect();
+        if thorough {
+            if let Some(l) = scalars.last() {
+                if !chosen.contains(l) {
+                    chosen.push(*l);
+                }
+            }
+        }
+        for s in chosen {
+            push(gd::WitnessKind::ProofScalar(s), false);
+        }
+        let mut pp = points.clone();
+        pp.shuffle(&mut rng);
+        for p in pp.into_iter().take(n_p) {
+            push(gd::WitnessKind::ProofPoint(p), false);
+        }
+        if thorough {
+            for j in 0..c.pi.len() {
+                push(gd::WitnessKind::WrongPi(j), false);
+            }
+        } else {
+            push(gd::WitnessKind::WrongPi(rng.gen_range(0..c.pi.len())), false);
+        }
+    }
+    if !thorough {
+        // fill up to 8 runs: a second scalar on each case, then one point
+        for ci in 0..cases.len() {
+            let c = &cases[ci];
+            let scalars: Vec<usize> = (0..c.layout.len()).filter(|i| c.layout[*i].kind == 'S').collect();
+            if let Some(l) = scalars.last() {
+                plan.push(gd::RunSpec {
+                    inner: ci,
+                    kind: gd::WitnessKind::ProofScalar(*l),
+                    edit_positions: gd::EditPlan::Sample(2, rng.gen()),
+                    full_first_claim: false,
+                });
+            }
+        }
+        plan.truncate(8);
+    } else {
+        plan.truncate(80);
+    }
+
+    let t1 = Instant::now();
+    let stats = gd::run_plan(&cases, &plan, 16, rep);
+    let wall = t1.elapsed().as_secs_f64();
+    let n = stats.iter().filter(|s| s.mock_run_s > 0.0).count().max(1) as f64;
+    let avg = |f: fn(&gd::RunStats) -> f64| stats.iter().map(f).sum::<f64>() / n;
+    rep.set(
+        "verifier_gadget",
+        json!({
+            "outer_k": gd::OUTER_K,
+            "inner_cases": cases.iter().map(|c| json!({"name": c.name, "k": c.k, "lookups": c.lookups, "public_inputs": c.pi.len(),
+                "proof_bytes": c.proof.len(), "proof_elements": c.layout.len(),
+                "points": c.layout.iter().filter(|e| e.kind == 'P').count(), "scalars": c.layout.iter().filter(|e| e.kind == 'S').count()})).collect::<Vec<_>>(),
+            "verifier_circuit_runs_planned": plan.len(),
+            "verifier_circuit_runs_done": stats.iter().filter(|s| s.mock_run_s > 0.0).count(),
+            "claims_evaluated": stats.iter().map(|s| s.edits).sum::<usize>(),
+            "seconds": {"inner_setup": setup_s, "wall_all_runs_parallel": wall,
+                "avg_collect": avg(|s| s.collect_s), "avg_reference_full_evaluation": avg(|s| s.ref_full_s),
+                "avg_mock_run": avg(|s| s.mock_run_s), "avg_mock_verify": avg(|s| s.mock_verify_s),
+                "avg_all_other_claims_of_a_run": avg(|s| s.edit_s)},
+        }),
+    );
+    if (stats.iter().filter(|s| s.mock_run_s > 0.0).count() as f64) < plan.len() as f64 / 2.0 {
+        rep.inconclusive("fewer than half of the planned verifier-circuit runs were executed");
+        return false;
+    }
+    true
+}
+
+/// Returns false when no aggregator configuration produced an observation.
+fn part_b(ctx: &Ctx, rep: &mut Report) -> bool {
+    let thorough = ctx.tier == Tier::Thorough;
+    let budget = ag::Budget {
+        // a mutated verification costs ~45 ms: every element with every variant in both tiers
+        elements: usize::MAX,
+        all_variants: true,
+        truncations: usize::MAX,
+        inner_elements: if thorough { usize::MAX } else { 6 },
+    };
+    let mut stats = vec![];
+    let t0 = Instant::now();
+    let srcs: Vec<&str> = if thorough { vec!["two-poseidon", "arith"] } else { vec!["two-poseidon"] };
+    for (si, name) in srcs.iter().enumerate() {
+        let src = match catch_any(|| ag::source_by_name(name)) {
+            Ok(Some(s)) => s,
+            Ok(None) => continue,
+            Err(p) => {
+                rep.inconclusive(&format!("inner relation {name}: setup panic {} at {}", p.message, p.location));
+                continue;
+            }
+        };
+        let seed = ctx.seed;
+        with_pool(16, || {
+            if let Some(s) = ag::run_n::<1>(src.as_ref(), seed, &budget, rep) {
+                stats.push((name.to_string(), s));
+            }
+            if let Some(s) = ag::run_n::<2>(src.as_ref(), seed, &budget, rep) {
+                stats.push((name.to_string(), s));
+            }
+            if thorough && si == 0 {
+                if let Some(s) = ag::run_n::<3>(src.as_ref(), seed, &budget, rep) {
+                    stats.push((name.to_string(), s));
+                }
+            }
+        });
+    }
+    rep.set(
+        "aggregator",
+        json!({
+            "wall_s": t0.elapsed().as_secs_f64(),
+            "runs": stats.iter().map(|(name, s)| json!({"inner": name, "N": s.n, "init_s": s.init_s, "inner_proving_s": s.prove_inner_s,
+                "aggregate_s": s.aggregate_s, "verify_ms": s.verify_ms, "aggregated_proof_bytes": s.proof_len, "elements": s.elements})).collect::<Vec<_>>(),
+        }),
+    );
+    let planned = if thorough { 5 } else { 2 };
+    rep.set("aggregator_configurations", json!({"planned": planned, "completed": stats.len()}));
+    if stats.is_empty() {
+        rep.inconclusive("no aggregator configuration completed");
+        return false;
+    }
+    true
+}
+
+fn replay(path: &std::path::Path) -> ! {
+    let body: Json = serde_json::from_str(&std::fs::read_to_string(path).expect("replay file")).expect("json");
+    let w = &body["witness"];
+    println!("replaying {} ({})", path.display(), body["signature"]);
+    match w["part"].as_str() {
+        Some("aggregator") | Some("aggregator-aggregate") => {
+            let src = ag::source_by_name(w["inner"].as_str().unwrap_or("")).expect("inner relation");
+            let r = match w["n"].as_u64() {
+                Some(1) => ag::replay_n::<1>(src.as_ref(), w),
+                Some(2) => ag::replay_n::<2>(src.as_ref(), w),
+                Some(3) => ag::replay_n::<3>(src.as_ref(), w),
+                _ => Err("unsupported N".into()),
+            };
+            println!("recorded outcome: {}", w["outcome"]);
+            println!("replayed outcome: {r:?}");
+            let reproduced = match &r {
+                Ok(o) if w["part"].as_str() == Some("aggregator-aggregate") => o.starts_with("aggregate_proofs fails"),
+                Ok(o) => w["outcome"].as_str().map(|x| x.split('(').next() == o.split('(').next()).unwrap_or(false),
+                Err(_) => false,
+            };
+            std::process::exit(if reproduced { 1 } else { 0 });
+        }
+        Some("verifier-gadget") => {
+            let r = gd::replay(w);
+            println!("replayed: {r:?}");
+            std::process::exit(if matches!(r, Ok(true)) { 1 } else { 0 });
+        }
+        _ => {
+            println!("unknown witness format");
+            std::process::exit(2);
+        }
+    }
+}
 
 fn main() {
     let ctx = Ctx::from_args("C20");
-    let mut rep = Report::new(&ctx, "proto");
-    let t = std::time::Instant::now();
-    let c1 = poseidon_case(7, 1);
-    eprintln!("poseidon case: {:?} {:?}", c1.as_ref().map(|c| (c.name.clone(), c.proof.len(), c.layout.len(), c.lookups)), t.elapsed());
-    for k in 5..=10 {
-        let c = poseidon_case(k, 1);
-        eprintln!("poseidon k={k}: {:?}", c.as_ref().map(|c| (c.proof.len(), c.layout.len())).map_err(|e| e.clone()));
+    if let Some(p) = &ctx.replay {
+        replay(p);
     }
-    let c2 = arith_case(6, 2);
-    eprintln!("arith case: {:?} {:?}", c2.as_ref().map(|c| (c.name.clone(), c.proof.len(), c.layout.len(), c.lookups)), t.elapsed());
-    let cases = vec![c1.unwrap(), c2.unwrap()];
-    let plan = vec![
-        RunSpec { inner: 0, kind: WitnessKind::Honest, edit_positions: EditPlan::Sample(6, 1) },
-        RunSpec { inner: 1, kind: WitnessKind::Honest, edit_positions: EditPlan::Sample(6, 1) },
-    ];
-    let stats = run_plan(&cases, &plan, 16, &mut rep);
-    for s in stats {
-        eprintln!("collect {:.1}s ref_full {:.1}s mock_run {:.1}s mock_verify {:.1}s edits {} in {:.1}s", s.collect_s, s.ref_full_s, s.mock_run_s, s.mock_verify_s, s.edits, s.edit_s);
+    let mut rep = Report::new(
+        &ctx,
+        "(a) verifier-circuit runs = (inner circuit, inner k, witness kind: honest | one scalar of the inner proof +1 | one point +G | one inner public input +1), each \
+         synthesised by the reference collector and MockProver; non-trivial = the off-circuit verifier derives a different accumulator for the corrupted witness and the \
+         claimed-instance verdicts (own accumulator, honest accumulator, +1 edits of vk identity / accumulator positions) are all obtained. \
+         (b) per (N, inner relation): honest aggregate, then one verification per (element of the aggregated proof, mutation variant), per wrong inner instance, per \
+         truncation / trailing shape, per invalid inner proof position; non-trivial = the mutated bytes / instances differ from the honest ones. Element boundaries and \
+         kinds come from the verifier's own reads.",
+    );
+    rep.assume("SRS: seeded ParamsKZG::unsafe_setup (trapdoor known to nobody in the run); negligible-probability acceptance of a mutated proof is ignored");
+    rep.assume("inner proofs for the aggregator are made with a harness mirror of the aggregator's private LightPoseidonFS hash; a mismatch shows up as inconclusive");
+    rep.assume("ipa_prove/ipa_verify are private: the inner-product argument is reached only through LightAggregator::{aggregate_proofs, verify}");
+    rep.assume("verifier gadget: mock level only (reference evaluator ∧ MockProver at k=18); claims other than the first of a run are evaluated on the constraints that read a changed instance cell (the witness does not depend on the instance)");
+    let part = ctx.extra.get("part").cloned().unwrap_or_default();
+    let mut complete = true;
+    if part.is_empty() || part == "b" {
+        complete &= part_b(&ctx, &mut rep);
     }
-    rep.set("x", json!(1));
+    if part.is_empty() || part == "a" {
+        complete &= part_a(&ctx, &mut rep);
+    }
+    rep.min_nontrivial = if part.is_empty() { ctx.tier.pick(100, 400) } else { 2 };
+    if !complete {
+        // a whole part of the planned workload is missing: the run must not read as "held"
+        rep.min_nontrivial = u64::MAX;
+    }
     rep.finish();
 }
